@@ -1,5 +1,7 @@
 """Generators: the `#[kani::proof]` wrappers + native table (from lib/registry.py) and the
-conversion harnesses of C04/C05 (from the macro invocations found in /repo/src on every run)."""
+conversion harnesses of C04/C05, which are derived on every run from the `newtype!` blocks and
+`impl_from_*!` / `impl_try_from_*!` invocations found in /repo/src."""
+import glob
 import os
 import re
 
@@ -9,13 +11,256 @@ STUBS = (
     "    #[kani::stub(std::alloc::realloc, crate::stubs::no_realloc)]\n"
 )
 
+PRIMS = {"u8": 8, "u16": 16, "u32": 32, "u64": 64, "u128": 128, "usize": 64,
+         "i8": 8, "i16": 16, "i32": 32, "i64": 64, "i128": 128, "isize": 64}
+
+_cache = {}
+
+
+def scan_repo(repo):
+    """Returns (newtypes {name: (repr, max)}, impls [(kind, from, to)])."""
+    key = repo
+    files = sorted(glob.glob(os.path.join(repo, "src", "*.rs")))
+    sig = tuple((f, os.path.getmtime(f), os.path.getsize(f)) for f in files)
+    if key in _cache and _cache[key][0] == sig:
+        return _cache[key][1]
+    newtypes = {}
+    impls = []
+    for f in files:
+        if f.endswith("newtype_macros.rs"):
+            continue
+        with open(f) as fh:
+            src = fh.read()
+        src = re.sub(r"//[^\n]*", "", src)
+        for m in re.finditer(r"newtype!\s*\{(.*?)\n\}", src, flags=re.S):
+            body = m.group(1)
+            n = re.search(r"name\s*=\s*(\w+)", body)
+            r = re.search(r"repr\s*=\s*(\w+)", body)
+            mx = re.search(r"max\s*=\s*(\d+)", body)
+            if n and r and mx:
+                newtypes[n.group(1)] = (r.group(1), int(mx.group(1)))
+        for m in re.finditer(r"\b(impl_(?:try_)?from_\w+)!\s*\(\s*([\w:]+)\s*,\s*([\w:]+)\s*\)", src):
+            kind, a, b = m.groups()
+            a = a.split("::")[-1]
+            b = b.split("::")[-1]
+            impls.append((kind, a, b))
+        # hand-written conversion impls next to the macro invocations
+        for m in re.finditer(r"\bimpl\s+(?:core::convert::|std::convert::)?(Try)?From<\s*([\w:]+)\s*>\s+for\s+([\w:]+)", src):
+            tr, a, b = m.groups()
+            a = a.split("::")[-1]
+            b = b.split("::")[-1]
+            impls.append(("hand_try" if tr else "hand_from", a, b))
+    # classify hand-written impls like the macro kinds
+    fixed = []
+    for kind, a, b in impls:
+        if kind.startswith("hand_"):
+            t = "try_" if kind == "hand_try" else ""
+            if a in newtypes and b in newtypes:
+                kind = "impl_%sfrom_newtype_to_newtype" % t
+            elif a in PRIMS and b in newtypes:
+                kind = "impl_%sfrom_primitive_to_newtype" % t
+            elif a in newtypes and b in PRIMS and not t:
+                kind = "impl_from_newtype_to_primitive"
+            else:
+                continue
+        fixed.append((kind, a, b))
+    impls = fixed
+    res = (newtypes, impls)
+    _cache[key] = (sig, res)
+    return res
+
+
+def any_nt(name, newtypes):
+    rep, mx = newtypes[name]
+    return "unsafe { %s::new_unchecked(nd.%s_le(%d)) }" % (name, rep, mx)
+
+
+def conv_items(repo):
+    """[(fn_name, description, rust_source, expect)] for every conversion impl and newtype."""
+    newtypes, impls = scan_repo(repo)
+    items = []
+    seen = set()
+    for kind, a, b in impls:
+        fn = ("conv_%s_%s_%s" % (kind.replace("impl_", ""), a, b)).lower()
+        if fn in seen:
+            continue
+        seen.add(fn)
+        if kind == "impl_from_newtype_to_newtype" and a in newtypes and b in newtypes:
+            bm = newtypes[b][1]
+            src = """pub fn %(fn)s<N: Nd>(nd: &mut N) {
+    let a: %(a)s = %(any)s;
+    let r: %(b)s = <%(b)s as From<%(a)s>>::from(a);
+    assert!((r.get() as i128) <= %(bm)d, "C04 C05 From<%(a)s> for %(b)s yields an in-range value");
+    assert!(r.get() as i128 == a.get() as i128, "C05 From<%(a)s> for %(b)s preserves the value");
+    witness!(nd, a.get() as i128 == %(am)d, "source maximum");
+}
+""" % dict(fn=fn, a=a, b=b, bm=bm, am=newtypes[a][1], any=any_nt(a, newtypes))
+            desc = "From<%s> for %s over every %s value" % (a, b, a)
+        elif kind == "impl_from_newtype_to_primitive" and a in newtypes and b in PRIMS:
+            cast = "u128" if b == "u128" else "i128"
+            src = """pub fn %(fn)s<N: Nd>(nd: &mut N) {
+    let a: %(a)s = %(any)s;
+    let r: %(b)s = <%(b)s as From<%(a)s>>::from(a);
+    assert!(r as %(cast)s == a.get() as %(cast)s, "C05 From<%(a)s> for %(b)s yields the same mathematical value");
+    witness!(nd, a.get() as i128 == %(am)d, "source maximum");
+}
+""" % dict(fn=fn, a=a, b=b, cast=cast, am=newtypes[a][1], any=any_nt(a, newtypes))
+            desc = "From<%s> for %s over every %s value" % (a, b, a)
+        elif kind == "impl_from_primitive_to_newtype" and a in PRIMS and b in newtypes:
+            bm = newtypes[b][1]
+            src = """pub fn %(fn)s<N: Nd>(nd: &mut N) {
+    let x: %(a)s = nd.%(a)s();
+    let r: %(b)s = <%(b)s as From<%(a)s>>::from(x);
+    assert!((r.get() as i128) <= %(bm)d, "C04 C05 From<%(a)s> for %(b)s yields an in-range value");
+    assert!(r.get() as i128 == x as i128, "C05 From<%(a)s> for %(b)s preserves the value");
+    witness!(nd, true, "converted");
+}
+""" % dict(fn=fn, a=a, b=b, bm=bm)
+            desc = "From<%s> for %s over every %s value (all 2^%d)" % (a, b, a, PRIMS[a])
+        elif kind == "impl_try_from_newtype_to_newtype" and a in newtypes and b in newtypes:
+            bm = newtypes[b][1]
+            src = """pub fn %(fn)s<N: Nd>(nd: &mut N) {
+    let a: %(a)s = %(any)s;
+    let r = <%(b)s as core::convert::TryFrom<%(a)s>>::try_from(a);
+    let in_range = (a.get() as i128) <= %(bm)d;
+    match r {
+        Ok(v) => {
+            assert!((v.get() as i128) <= %(bm)d, "C04 C05 TryFrom<%(a)s> for %(b)s yields an in-range value");
+            assert!(in_range, "C04 C05 TryFrom<%(a)s> for %(b)s accepts only in-range input");
+            assert!(v.get() as i128 == a.get() as i128, "C05 TryFrom<%(a)s> for %(b)s preserves the value");
+            witness!(nd, true, "accepted");
+        }
+        Err(_) => {
+            assert!(!in_range, "C04 C05 TryFrom<%(a)s> for %(b)s rejects only out-of-range input");
+            witness!(nd, true, "rejected");
+        }
+    }
+}
+""" % dict(fn=fn, a=a, b=b, bm=bm, any=any_nt(a, newtypes))
+            desc = "TryFrom<%s> for %s over every %s value" % (a, b, a)
+        elif kind == "impl_try_from_primitive_to_newtype" and a in PRIMS and b in newtypes:
+            bm = newtypes[b][1]
+            if a == "u128":
+                inr = "x <= %d" % bm
+                eq = "v.get() as u128 == x"
+            else:
+                inr = "(x as i128) >= 0 && (x as i128) <= %d" % bm
+                eq = "v.get() as i128 == x as i128"
+            src = """pub fn %(fn)s<N: Nd>(nd: &mut N) {
+    let x: %(a)s = nd.%(a)s();
+    let r = <%(b)s as core::convert::TryFrom<%(a)s>>::try_from(x);
+    let in_range = %(inr)s;
+    match r {
+        Ok(v) => {
+            assert!((v.get() as i128) <= %(bm)d, "C04 C05 TryFrom<%(a)s> for %(b)s yields an in-range value");
+            assert!(in_range, "C04 C05 TryFrom<%(a)s> for %(b)s accepts only in-range input");
+            assert!(%(eq)s, "C05 TryFrom<%(a)s> for %(b)s preserves the value");
+            witness!(nd, true, "accepted");
+        }
+        Err(_) => {
+            assert!(!in_range, "C04 C05 TryFrom<%(a)s> for %(b)s rejects only out-of-range input");
+            witness!(nd, true, "rejected");
+        }
+    }
+}
+""" % dict(fn=fn, a=a, b=b, bm=bm, inr=inr, eq=eq)
+            desc = "TryFrom<%s> for %s over every %s value (all 2^%d)" % (a, b, a, PRIMS[a])
+        else:
+            continue
+        items.append((fn, desc, src, "pass", ["C04", "C05", "C18"]))
+    for name, (rep, mx) in sorted(newtypes.items()):
+        low = name.lower()
+        d = dict(t=name, rep=rep, mx=mx, low=low, any=any_nt(name, newtypes))
+        items.append(("nt_new_ok_" + low, "%s::new over every in-range %s" % (name, rep), """pub fn nt_new_ok_%(low)s<N: Nd>(nd: &mut N) {
+    let v: %(rep)s = nd.%(rep)s_le(%(mx)d);
+    let r = %(t)s::new(v);
+    assert!(r.get() == v, "C04 C05 %(t)s::new keeps the value");
+    assert!(unsafe { %(t)s::new_unchecked(v) } == r, "C05 %(t)s::new_unchecked agrees with new on valid input");
+    witness!(nd, v == %(mx)d, "maximum");
+}
+""" % d, "pass", ["C04", "C05", "C18"]))
+        items.append(("nt_new_must_panic_" + low, "%s::new over every out-of-range %s: must panic" % (name, rep), """pub fn nt_new_must_panic_%(low)s<N: Nd>(nd: &mut N) {
+    let v: %(rep)s = nd.%(rep)s();
+    nd.assume(v > %(mx)d);
+    let _ = %(t)s::new(v);
+    returned!(nd);
+}
+""" % d, "must_panic", ["C04", "C18"]))
+        items.append(("nt_consts_ord_" + low, "%s: MIN/MAX/Default, Eq/Ord/PartialOrd/Hash vs. the numeric value over all pairs" % name, """pub fn nt_consts_ord_%(low)s<N: Nd>(nd: &mut N) {
+    assert!(%(t)s::MIN.get() == 0, "C04 C05 %(t)s::MIN is 0");
+    assert!(%(t)s::MAX.get() == %(mx)d, "C04 C05 %(t)s::MAX is %(mx)d");
+    assert!(<%(t)s as Default>::default().get() == 0, "C04 C05 %(t)s::default() is 0");
+    let a: %(t)s = %(any)s;
+    let b: %(t)s = %(any)s;
+    let (x, y) = (a.get(), b.get());
+    assert!((a == b) == (x == y), "C05 %(t)s equality agrees with the numeric value");
+    assert!((a != b) == (x != y), "C05 %(t)s inequality agrees with the numeric value");
+    assert!((a < b) == (x < y) && (a <= b) == (x <= y) && (a > b) == (x > y) && (a >= b) == (x >= y),
+        "C05 %(t)s ordering operators agree with the numeric value");
+    assert!(a.cmp(&b) == x.cmp(&y), "C05 %(t)s Ord agrees with the numeric value");
+    assert!(a.partial_cmp(&b) == Some(x.cmp(&y)), "C05 %(t)s PartialOrd agrees with the numeric value");
+    assert!(core::cmp::max(a, b).get() == core::cmp::max(x, y), "C05 %(t)s max agrees");
+    assert!(%(t)s::MIN <= a && a <= %(t)s::MAX, "C04 C05 every %(t)s lies between MIN and MAX");
+    assert!(crate::numeric::hash_of(&a) == crate::numeric::hash_of(&x), "C05 %(t)s hashes like its numeric value");
+    let c = a;
+    assert!(c == a && c.clone() == a, "C05 %(t)s Copy/Clone preserve the value");
+    witness!(nd, x < y, "a < b");
+    witness!(nd, x == y, "a == b");
+}
+""" % d, "pass", ["C04", "C05", "C18"]))
+        for L in (3, 4, 5, 6):
+            dd = dict(d, L=L)
+            items.append(("nt_parse_%s_len%d" % (low, L),
+                          "str::parse::<%s> over every ASCII byte string of length 0..=%d" % (name, L),
+                          """pub fn nt_parse_%(low)s_len%(L)d<N: Nd>(nd: &mut N) {
+    crate::numeric::parse_all::<N, %(t)s>(nd, %(mx)d, %(L)d, |v| v.get() as u32)
+}
+""" % dd, "pass", ["C04", "C05", "C18"]))
+        items.append(("nt_display_" + low, "Display of every %s value into a stack buffer" % name,
+                      """pub fn nt_display_%(low)s<N: Nd>(nd: &mut N) {
+    let v: %(t)s = %(any)s;
+    crate::numeric::display_one(nd, v, v.get() as u32)
+}
+""" % d, "pass", ["C05", "C18"]))
+    return items
+
 
 def conversion_harnesses(repo):
-    return []
+    import registry
+    hs = []
+    for fn, desc, src, expect, props in conv_items(repo):
+        if fn.startswith("nt_parse_"):
+            L = int(fn[-1])
+            u16 = "_u14_" in fn
+            # quick: length <= 4; thorough: 6 for the u16-backed type, 5 for the u8-backed ones
+            if L == 3:
+                continue
+            tier = "quick" if L == 4 else ("thorough" if (L == 6) == u16 else None)
+            if tier is None:
+                continue
+            hs.append(registry.H(fn, "generated::conv::" + fn, props, desc, unwind=9, tier=tier,
+                                 cost=10 if L == 4 else 200, timeout=3000))
+            continue
+        if fn.startswith("nt_display_"):
+            hs.append(registry.H(fn, "generated::conv::" + fn, props, desc, unwind=9, cost=15))
+            continue
+        hs.append(registry.H(fn, "generated::conv::" + fn, props, desc, expect=expect, cost=2))
+        # the same conversions in the configuration without the std feature
+        if fn.startswith("nt_parse_") or fn.startswith("nt_display_"):
+            continue
+        hs.append(registry.H(fn + "_nostd", "generated::conv::" + fn, ["C04", "C18"] if expect != "pass" else ["C04"],
+                             desc + " [--no-default-features]", cfg="nostd", expect=expect, cost=2,
+                             tier="quick" if fn.startswith("nt_new") else "thorough"))
+    return hs
 
 
 def conversion_source(repo):
-    return "// no conversion harnesses yet\n"
+    out = ["// @generated from %s/src by /verif/lib/gen.py - do not edit\n" % repo,
+           "#![allow(unused_imports, non_snake_case)]\n",
+           "use crate::nd::Nd;\nuse crate::{returned, witness};\nuse helgoboss_midi::*;\n\n"]
+    for fn, desc, src, expect, props in conv_items(repo):
+        out.append("/// " + desc + "\n" + src + "\n")
+    return "".join(out)
 
 
 def generate(cfg, repo):
